@@ -321,6 +321,15 @@ def build(tier):
             sessions = [make_session(r, framer, dgram) for _ in range(nsess if framer == "socket" else max(2, nsess // 3))]
             if not dgram:
                 sessions += foreign_sessions(framer)
+                if framer in ("socket", "ascii"):
+                    # a large request split across two reads whose second read also carries another large one
+                    # (partial frame + chunk well over one maximum ADU): nothing buffered may be thrown away
+                    big = [L.frame(framer, 0x2200 + i, 1, L.pdu_write_regs(a, [r.randrange(65536) for _ in range(120)]))
+                           for i, a in enumerate((0, 60))]
+                    cut = r.randrange(8, 40)
+                    sessions.append(({"single": True, "units": [0], "size": 200},
+                                     {"broadcast_enable": False, "ignore_missing_slaves": False},
+                                     [[(big[0][:cut], []), (big[0][cut:] + big[1], big)]]))
                 # long pipelined bursts, delivered the way each front-end really reads: the threaded handlers
                 # recv(1024) at a time, asyncio/Twisted get the burst whole
                 for (lo, hi, boundary, want) in BURSTS[tier].get(framer, []):
